@@ -474,6 +474,10 @@ class Engine:
                 from . import stubs as _S
                 iv = addr[2][1]
                 ie = iv.e if iv.width == 64 else z3.ZeroExt(64 - iv.width, iv.e)
+                if self.statics.get(addr[1], {}).get("elem") == "f64":
+                    arr, n = _S.table_f64(self, addr[1])
+                    st.events.append(("table_get", addr[1], ie))
+                    return F64(z3.fpBVToFP(z3.Select(arr, ie), z3.Float64()))
                 return Int(_S.table_u8_select(self, addr[1], ie), "u8")
             return self.static_value(addr[1])
         if addr[0] == "V":
@@ -792,6 +796,22 @@ class Engine:
             if v.signed:
                 return F64(z3.fpSignedToFP(z3.RNE(), v.e, z3.Float64()))
             return F64(z3.fpUnsignedToFP(z3.RNE(), v.e, z3.Float64()))
+        if kind == "FloatToInt" and isinstance(v, F64) and ty in INT_TY:
+            # Rust `as`: saturating, NaN -> 0
+            w, sg = INT_TY[ty]
+            rtz = z3.RTZ()
+            if sg:
+                lo, hi = -(1 << (w - 1)), (1 << (w - 1)) - 1
+                conv = z3.fpToSBV(rtz, v.e, z3.BitVecSort(w))
+            else:
+                lo, hi = 0, (1 << w) - 1
+                conv = z3.fpToUBV(rtz, v.e, z3.BitVecSort(w))
+            flo, fhi = z3.FPVal(float(lo), z3.Float64()), z3.FPVal(float(hi), z3.Float64())
+            e = z3.If(z3.fpIsNaN(v.e), z3.BitVecVal(0, w),
+                      z3.If(z3.fpLEQ(v.e, flo), z3.BitVecVal(lo & ((1 << w) - 1), w), z3.If(z3.fpGEQ(v.e, fhi), z3.BitVecVal(hi, w), conv)))
+            return Int(e, ty)
+        if kind == "FloatToFloat":
+            return v
         raise Unsupported("cast kind %s" % kind)
 
     def adt(self, path, args):
@@ -1151,6 +1171,8 @@ class Engine:
             v = self.sym_bool("unmodelled")
         elif ty in INT_TY or ty == "char":
             v = self.sym_int(ty, "unmodelled")
+        elif ty == "f64":
+            v = self.sym_f64("unmodelled")
         else:
             return None
         st.events.append(("unmodelled_call", callee))
